@@ -28,3 +28,25 @@ Theorem c09_dead_target_is_a_no_op :
     k_log (w_h (snd (fst (deliver_one beh it w)))) = k_log (w_h w).
 Proof. exact dead_target_has_no_effect. Qed.
 Print Assumptions c09_dead_target_is_a_no_op.
+
+Require Import EV.Listen.
+(* the shape of one delivery: the handlers of delivered_to run first, on an unchanged structure; then - exactly once,
+   and only if none of them took the event and none panicked - the built-in effect is applied to the world they left;
+   a taken event and a dead target have no effect (theorems above) *)
+Theorem c09_the_effect_is_applied_once_after_the_handlers_iff_not_consumed :
+  forall (beh : hinfo -> logent -> N -> script) (it : qitem) (w : world),
+    (if qi_targeted it then get_by_index (w_tev w) (qi_idx it) <> None /\ sm_get (qi_target it) (w_ents w) <> None /\
+                            (forall loc, sm_get (qi_target it) (w_ents w) = Some loc -> slab_get (w_archs w) (fst loc) <> None)
+     else get_by_index (w_gev w) (qi_idx it) <> None /\ nget (w_glists w) (qi_idx it) <> None) ->
+    exists tag kind loc, deliver_one beh it w =
+      (let '(w1, ev, sent, taken, fl) := run_handlers beh (delivered_to w it) w it tag loc nil in
+         match fl with
+         | Some f => (sent, (if taken then w1 else ev_drop w1 (qi_targeted it) tag ev), Some f)
+         | None => if taken then (sent, w1, None) else
+             match kind with
+             | KNormal => (sent, ev_drop w1 (qi_targeted it) tag ev, None)
+             | _ => let '(w3, f) := fail_of (builtin_effect kind ev loc w1) in (sent, w3, f)
+             end
+         end).
+Proof. exact deliver_one_uses_delivered_to. Qed.
+Print Assumptions c09_the_effect_is_applied_once_after_the_handlers_iff_not_consumed.
